@@ -244,6 +244,26 @@ func init() {
 			ex.recording = false
 			return nil
 		},
+		z + "RacePair": func(ex *Exec, fn *ssa.Function, args []Value, site token.Pos) Value {
+			label := ex.argStr(args[0])
+			ex.raceSeq++
+			ta, tb := fmt.Sprintf("A#%d", ex.raceSeq), fmt.Sprintf("B#%d", ex.raceSeq)
+			ex.raceMark = ex.nextObj
+			ex.recording, ex.recTag = true, ta
+			ex.callValue(args[1], nil, site)
+			ex.recTag = tb
+			ex.callValue(args[2], nil, site)
+			ex.recording = false
+			c, cell := ex.conflicts(ta, tb)
+			// forget the records of this pair
+			ex.accesses = ex.accesses[:0]
+			if c {
+				ex.obligationMsg(ex.tc.False, label, "race", site, "unsynchronised conflicting accesses: "+cell)
+			} else {
+				ex.obligation(ex.tc.True, label, "race", site)
+			}
+			return nil
+		},
 		z + "Conflicts": func(ex *Exec, fn *ssa.Function, args []Value, site token.Pos) Value {
 			c, _ := ex.conflicts(ex.argStr(args[0]), ex.argStr(args[1]))
 			ex.derived = append(ex.derived, c)
